@@ -226,6 +226,50 @@ Theorem C02_revoke_refused_stuck :
   /\ sr_err (sync_step ex_cfg 0 2 (mkSin 100 50) stuck_revoke_state) = true.
 Proof. exact sync_stuck_revoke_witness. Qed.
 
+(** ** A class the child gives up (its parent stopped listing it): nothing is left behind at the parent *)
+
+(** After a revocation request naming (class as the parent names it for this child, key) has been performed, the
+    parent holds no certificate for the key in that class - neither published nor suspended - and no longer
+    counts the key as in use. *)
+Theorem C02_revoke_clears : forall s h crcn ki s' dch,
+  aget h (da_children s) = Some dch ->
+  amem (name_in_parent (dc_ch dch) crcn) (da_classes s) = true ->
+  dprocess s (XRevoke h crcn ki) = Done s' ->
+  (exists dc', aget (name_in_parent (dc_ch dch) crcn) (da_classes s') = Some dc' /\ holds_key dc' ki = false)
+  /\ (exists dch', aget h (da_children s') = Some dch' /\ ch_is_issued (dc_ch dch') ki = false).
+Proof. exact revoke_clears. Qed.
+
+(** The revocation requests of a given-up class (one per certified key, naming the class as the PARENT names it),
+    all performed: the parent class behind that name holds no certificate for any certified key of that class. *)
+Theorem C02_dropped_class_revoked : forall s h dch x c s',
+  aget h (da_children s) = Some dch ->
+  name_in_parent (dc_ch dch) (d_prcn x) = c ->
+  amem c (da_classes s) = true ->
+  revoke_all s h (class_revocations x) = Done s' ->
+  exists dc', aget c (da_classes s') = Some dc' /\ forall k, In k (ks_certified (d_keys x)) -> holds_key dc' k = false.
+Proof. exact dropped_class_revoked. Qed.
+
+(** The name is all that ties a request to the certificate: requests under a name the parent does not know (such as
+    the name the child itself gave the class) are all confirmed and change nothing. *)
+Theorem C02_revocations_under_unknown_name_keep : forall s h dch wrong keys,
+  aget h (da_children s) = Some dch ->
+  aget (name_in_parent (dc_ch dch) wrong) (da_classes s) = None ->
+  revoke_all s h (map (fun k => (wrong, k)) keys) = Done s.
+Proof. exact revocations_under_unknown_name_keep. Qed.
+
+(** The pair of the sync driver: the parent no longer lists the class, the child (no request open) synchronises,
+    gives the class up and its revocation requests are performed: the parent class holds no certificate, published
+    or suspended, for any key it counts as in use by this child. *)
+Theorem C02_unlisted_class_leaves_nothing : forall cfg pcn parent inp s x pc' dch',
+  st_xc s = Some x -> pending_requested x -> has_pending_requests (st_xc s) = false ->
+  name_in_parent (dc_ch (st_ch s)) (d_prcn x) = pcn ->
+  held_sub pcn s ->
+  st_xc (sr_st (sync_step cfg pcn parent inp s)) = None ->
+  p_revoke_all pcn (st_pc (sr_st (sync_step cfg pcn parent inp s))) (st_ch (sr_st (sync_step cfg pcn parent inp s)))
+               (class_revocations x) = Some (pc', dch') ->
+  forall pc k, pc' = Some pc -> child_key pcn dch' k -> holds_key pc k = false.
+Proof. exact unlisted_class_leaves_nothing. Qed.
+
 Print Assumptions C02_issued_exact.
 Print Assumptions C02_issued_exact_no_limit.
 Print Assumptions C02_issued_within.
@@ -256,3 +300,7 @@ Print Assumptions C02_quiet_fresh.
 Print Assumptions C02_wants_update_spec.
 Print Assumptions C02_step_request.
 Print Assumptions C02_open_request_empty_entitlement_stuck.
+Print Assumptions C02_revoke_clears.
+Print Assumptions C02_dropped_class_revoked.
+Print Assumptions C02_revocations_under_unknown_name_keep.
+Print Assumptions C02_unlisted_class_leaves_nothing.
